@@ -481,6 +481,33 @@ def rule_r12(ck, prog, roles, rule='C02.R12'):
                    path=None if not bad else g.describe_path(g.path(starts[0], g.exit, avoid_edges=queue_empty) or []))
 
 
+def rule_r13(ck, prog, rule='C02.R13', providers=('sdk::trace::TracerProvider', 'sdk::logs::LoggerProvider', 'sdk::metrics::MeterProvider')):
+    """shutdown by destruction: the provider's destructor shuts its context down (drains the processors) on every path on which the
+    context exists - before the members, and with them the tracers / loggers whose scopes queued records point to, are destroyed"""
+    for cls in providers:
+        rec = prog.record(cls)
+        ds = [x for x in prog.funcs.values() if x.cls == rec['qn'] and x.kind == 'dtor']
+        if not ds or not ds[0].blocks:
+            ck.violation(rule, type('R', (), {'qn': rec['qn'], 'loc': lambda self, n=None: rec['file'].replace('/repo/', '') + ':%d' % rec['line']})(), 'destructor-shuts-context-down', None,
+                         '%s has no user-written destructor: destroying the provider no longer drains and shuts down its processors' % cls.rsplit('::', 1)[-1])
+            continue
+        f = ds[0]
+        g = Graph(prog, f, inline=None, sync_lambdas=False)
+        sh = [p for p in g.points if p.n is not None and p.n['k'] == 'call' and strip_targs(p.n.get('c', '')).rsplit('::', 1)[-1] == 'Shutdown' and
+              p.n.get('obj') is not None and 'context' in path_str(access_path(f, p.n['obj'])).lower()]
+
+        def null_ctx(a, b, lab):
+            if not lab or not isinstance(lab[0], int):
+                return False
+            core, pol = norm_cond(lab[1], lab[0])
+            ap = access_path(lab[1], core, a.ctx)
+            return len(ap) == 2 and ap[0] == 'this' and 'context' in ap[1].lower() and (lab[2] if pol else not lab[2]) is False
+        ok = bool(sh) and g.exit.id not in g.reachable_from(g.entry, avoid=sh, avoid_edges=null_ctx)
+        ck.verdict(ok, rule, f, 'destructor-shuts-context-down', sh[0].n if sh else None,
+                   'the destructor calls Shutdown() on the context on every path on which the context exists' if ok else
+                   '%s can be destroyed without its context having been shut down: records still queued in a batch processor are exported (if at all) after the tracers / loggers that own their instrumentation scopes are gone' % cls.rsplit('::', 1)[-1])
+
+
 FANOUT_NAMES = ('ForceFlush', 'Shutdown')
 
 
@@ -708,6 +735,7 @@ def run(ck, prog):
     ck.doc('C02.R9', 'after the exporter flush the ticket publication follows on every path (necessary for termination)', 2)
     ck.doc('C02.R10', 'ForceFlush/Shutdown fan-out: every child is visited in every iteration, the loop is not left early, no success before the loop', 6)
     ck.doc('C02.R11', 'a pending ticket is published only when the whole snapshot was consumed (whole-size count, or a nothing-left edge)', 2)
+    ck.doc('C02.R13', 'shutdown by destruction: every provider destructor shuts its context down', 3)
     ck.doc('C02.R12', 'after observing shutdown the worker returns only behind an emptiness observation of the queue', 2)
     cg = CallGraph(prog)
 
@@ -757,6 +785,7 @@ def run(ck, prog):
     rule_r5(ck, prog, 'sdk::metrics::MeterContext', target=('MetricCollector::Shutdown', 'MetricReader::Shutdown'),
             target_desc='collector Shutdown')
     rule_r10(ck, prog)
+    rule_r13(ck, prog)
     layers = flush_layers(prog)
     n = 0
     for f in sorted(layers, key=lambda x: x.qn):
